@@ -83,7 +83,23 @@ pub fn run_case(line: &str) -> String {
         (Some("display"), 2) => {
             let Some(k) = key(f[1]) else { return "bad-args".into() };
             let s = k.to_string();
-            s.chars().map(|c| (c as u32).to_string()).collect::<Vec<_>>().join(" ")
+            // "parsing the text back gives an EQUAL specification": `==` itself, both ways, through every entry point — also
+            // against a table of the caller's (equal content, other `Element` objects)
+            let back = guarded(|| {
+                let other = chemical_elements::ChemicalElements::new();
+                let a = ElementSpecification::parse(&s).ok();
+                let b = ElementSpecification::from_str(&s).ok();
+                let c = ElementSpecification::parse_with(&s, &chemical_elements::PERIODIC_TABLE).ok();
+                let d = ElementSpecification::parse_with(&s, &other.periodic_table).ok();
+                let e = other.parse_element(&s).ok();
+                [a, b, c, d, e].iter().all(|x| matches!(x, Some(p) if *p == k && k == *p && p.isotope == k.isotope && p.element.symbol == k.element.symbol))
+            })
+            .unwrap_or(false);
+            let mut out = s.chars().map(|c| (c as u32).to_string()).collect::<Vec<_>>().join(" ");
+            if !back {
+                out.push_str(" !parse-back-unequal");
+            }
+            out
         }
         _ => "bad-line".into(),
     }
